@@ -518,7 +518,13 @@ def canon(e, env):
                 parts.append(canon(s_['e'], en))
         if 'expr' in e:
             parts.append(canon(e['expr'], en))
-        return '; '.join(parts) if len(parts) != 1 or 'expr' in e else parts[0] + ';'
+        if len(parts) == 1 and 'expr' not in e:
+            # `{ x; }` and `{ x }` are the same block when x is of unit type
+            last_ = [s_ for s_ in e.get('stmts', []) if s_['k'] in ('Semi', 'Expr')]
+            if last_ and (peel(last_[-1]['e']).get('ty') == '()' or peel(last_[-1]['e']).get('k') in ('For', 'While')):
+                return parts[0]
+            return parts[0] + ';'
+        return '; '.join(parts)
     if k in ('Assign', 'AssignOp'):
         return _assign_str(e, env)
     if k == 'Ret':
